@@ -9,7 +9,7 @@ from terms import TermBuilder, show, walk
 import cfg
 from dataflow import Deps, operand_locals
 from callgraph import CallGraph, load_effects, classify
-from .common import live_calls, ws_bodies, fn_of, closure_upvar_terms, is_upvar
+from .common import live_calls, ws_bodies, fn_of, closure_upvar_terms, is_upvar, is_iter_next
 
 LEVEL = "proof"
 HASHER = "weechess_core::hasher::ZobristHasher"
@@ -136,7 +136,7 @@ def loop_elements(body):
         elems = set()
         for bb in loop:
             t = body.term(bb)
-            if t["k"] == "call" and callee_name(t).endswith("Iterator>::next") and not t["dest"]["p"]:
+            if t["k"] == "call" and is_iter_next(callee_name(t)) and not t["dest"]["p"]:
                 elems.add(t["dest"]["l"])
         out.append((loop, elems, be))
     return out
